@@ -5,6 +5,10 @@ mod orch;
 mod rng;
 mod scenarios;
 mod scen_artefact;
+mod scen_digest;
+mod refimpl;
+mod scen_ecdsa;
+mod scen_ecies;
 mod scen_interp;
 mod scen_txhist;
 
